@@ -660,6 +660,11 @@ func isBuiltinSpec(n string) bool {
 }
 
 func (fx *FuncCtx) scriptFor(ob *Obligation) string {
+	return fx.scriptForMode(ob, true)
+}
+
+// scriptForMode assembles the script; prune=false keeps every assumption.
+func (fx *FuncCtx) scriptForMode(ob *Obligation, prune bool) string {
 	fx.hdrOnce.Do(func() {
 		for n, deps := range builtinSpecDeps {
 			if fx.specUsed[n] {
@@ -675,6 +680,9 @@ func (fx *FuncCtx) scriptFor(ob *Obligation) string {
 	tn := fx.tainter()
 	goalT := tn.of(ob.Goal + " " + ob.PC)
 	keep := func(l string) bool {
+		if !prune {
+			return true
+		}
 		if !(strings.HasPrefix(l, "(assert") || strings.HasPrefix(l, "(define-fun")) {
 			return true
 		}
